@@ -334,19 +334,35 @@ PROPS = {
                 "header-safe texts, arguments of the wrong type, 0-3 metadata entries with URL-unsafe characters, arbitrary message ids, "
                 "authentication on or off) each sent through three fresh connections - native, HTTP gateway, JSON-RPC - and compared "
                 "pairwise (reply, error text, metadata seen by the handler, response metadata); plus every malformed gateway header; "
+                "plus the header level: 1500 (thorough 60000) header sets drawn from grammars of valid and invalid ids, types, "
+                "flags, query strings (bad escapes, semicolons, duplicates, empty keys), paths and bodies given to "
+                "HTTPRequest2RpcxRequest, 250 (4000) sent through the real gateway and 120 (1500) through the real JSON-RPC endpoint, "
+                "the request the server built being read at the post-read stage and compared field by field with the model's; "
                 "distinct = distinct model-input line",
-        "theorems": ["C19_http_ingress_equals_native", "C19_malformed_rejected"],
+        "theorems": ["C19_http_ingress_equals_native", "C19_malformed_rejected",
+                     "C19_gateway_builds_the_request_that_was_sent", "C19_metadata_query_round_trip",
+                     "C19_gateway_rejects_missing_method", "C19_gateway_rejects_missing_serialize_type",
+                     "C19_gateway_rejects_missing_path", "C19_gateway_rejects_non_numeric_id", "C19_an_id_that_parses_is_decimal",
+                     "C19_gateway_rejects_non_numeric_type", "C19_gateway_rejects_unparsable_metadata",
+                     "C19_header_level_malformed_never_reaches_a_handler", "C19_gateway_forwards_what_was_sent",
+                     "C19_jsonrpc_split_at_last_dot", "C19_jsonrpc_rejects_no_service"],
         "assumptions": ["router handlers (AddHandler) are outside the quantifier: they write to the native connection",
                         "error texts are header-safe (no CR/LF, no leading/trailing blanks); gateway compression headers are outside "
-                        "the property", "url.QueryEscape / ParseQuery round-trip the metadata (a premise; exercised)"],
-        "trusted": ["harness/cmd/vh/c15.go: a real server on loopback TCP (port multiplexer, HTTP gateway, JSON-RPC endpoint running), "
+                        "the property", "strconv.ParseUint / Atoi, url.QueryUnescape / ParseQuery / QueryEscape / Values.Encode are "
+                        "modelled in Server/Gateway.v (Go 1.23 semantics) and tied to the Go library only by the correspondence runs; "
+                        "net/http's own header canonicalisation and transport are outside the model"],
+        "trusted": ["harness/cmd/vh/c19front.go: header-set generators, the post-read recorder plugin",
+                    "harness/cmd/vh/c15.go: a real server on loopback TCP (port multiplexer, HTTP gateway, JSON-RPC endpoint running), "
                     "raw TCP peers over refcodec, net/http clients with keep-alives disabled (one fresh connection per request)"],
         "level_text": "Theorem: for every service table, handler and stage configuration, a two-way request that no stage rejects yields "
                       "through the gateway and through JSON-RPC exactly the native outcome (same reply or same error text, same handler "
                       "invocation), and malformed gateway / JSON-RPC requests are rejected without reaching a handler. Compared pairwise "
-                      "on a real server over three fresh connections per request.",
+                      "on a real server over three fresh connections per request. Header level: for every request (any sequence number "
+                      "below 2^64, any path / method / metadata / payload bytes) the gateway builds exactly the request whose headers a "
+                      "client sent (decimal and query-string round trips proved), every malformed header set is rejected before any "
+                      "stage, JSON-RPC method names are split at the last dot.",
         "level_note": "Trusted: Coq kernel, extraction, TCP harness, net/http. Modelled, not verified: gateway.go, converter.go, "
-                      "jsonrpc2.go.",
+                      "jsonrpc2.go, and the strconv / net/url functions they call.",
     },
     "C16": {
         "kcheck": True,
